@@ -23,6 +23,8 @@ type ubound struct {
 	vac []Edge
 	reg *Region // optional: look through results/parameters of inlined helpers
 	mfs map[string]*memField
+	// opaque, if set: a struct value whose field is not to be followed any further; the value returned stands for that field
+	opaque func(sv ssa.Value, fld int) ssa.Value
 }
 
 func (u *ubound) memFieldOf(al *ssa.Alloc, fld int) *memField {
@@ -88,6 +90,41 @@ func (u *ubound) boundedDef(mf *memField, def *memDef, isX func(ssa.Value) bool,
 		return u.bounded(st.Val, isX, d+1, busy) || u.siteOK(st.Val, st, isX, d, busy)
 	case def.store != nil:
 		st := def.store.(*ssa.Store)
+		// `target = dep` under `if dep.num < target.num`: the field of the source variable was compared
+		// with something bounded on every path to the assignment
+		if src, ok := stripConv(st.Val).(*ssa.UnOp); ok && src.Op == token.MUL {
+			if sal, ok := src.X.(*ssa.Alloc); ok && cellValue(sal) != nil {
+				fn := st.Parent()
+				okCmp := false
+				allInstrs(fn, func(in ssa.Instruction) {
+					if okCmp {
+						return
+					}
+					ld, isLd := in.(*ssa.UnOp)
+					if !isLd || ld.Op != token.MUL {
+						return
+					}
+					fa, isFA := ld.X.(*ssa.FieldAddr)
+					if !isFA || fa.X != ssa.Value(sal) || fa.Field != mf.fld {
+						return
+					}
+					for _, lf := range u.leq(ld) {
+						var les []Edge
+						for _, ed := range lf.edges {
+							if ed.From.Parent() == fn {
+								les = append(les, ed)
+							}
+						}
+						if len(les) > 0 && guardedByEdges(fn, st, les) && u.bounded(lf.w, isX, d+1, busy) {
+							okCmp = true
+						}
+					}
+				})
+				if okCmp {
+					return true
+				}
+			}
+		}
 		vals := u.fieldStores(st.Val, mf.fld, 0, map[ssa.Value]bool{})
 		if len(vals) == 0 {
 			return false
@@ -411,6 +448,11 @@ func (u *ubound) fieldStores(sv ssa.Value, fld int, d int, seen map[ssa.Value]bo
 	var out []fieldStore
 	if u.reg != nil {
 		sv = u.reg.Resolve(sv)
+	}
+	if u.opaque != nil {
+		if ov := u.opaque(sv, fld); ov != nil {
+			return []fieldStore{{val: ov}}
+		}
 	}
 	switch x := sv.(type) {
 	case *ssa.Alloc:
